@@ -41,10 +41,14 @@ def run(tier, wd):
     core.tlc_must_finish(res, "Decl")
     rep.add_tlc(res)
     cases = [json.loads(p) for p in sorted(set(res.printed("DECL")))]
-    want = (8420 + 1110) if q else (20 + 20 ** 2 + 20 ** 3 + 20 ** 4 + 10 + 10 ** 2 + 10 ** 3 + 10 ** 4)
+    want = (8420 + 12 + 12 ** 2 + 12 ** 3) if q else (20 + 20 ** 2 + 20 ** 3 + 20 ** 4 + 12 + 12 ** 2 + 12 ** 3 + 12 ** 4)
     if len(cases) != want:
         raise core.Broken("Decl.tla emitted %d sequences, expected %d" % (len(cases), want))
-    results = core.run_harness(binpath, "decl", [{"kind": c["kind"], "decls": c["decls"]} for c in cases], wd)
+    def concrete(c):
+        if c["kind"] == "args":
+            return {"kind": "args", "decls": [n.replace("~", "\u0142") for n in c["decls"]]}
+        return {"kind": c["kind"], "decls": c["decls"]}
+    results = core.run_harness(binpath, "decl", [concrete(c) for c in cases], wd)
     rnd = random.Random(core.seed())
     nontriv = 0
     for c, r in zip(cases, results):
@@ -60,7 +64,7 @@ def run(tier, wd):
     rep.cov["distinct_nontrivial"] = nontriv
     rep.cov["exhaustive"] = True
     rep.cov["rule"] = ("every sequence of 1..3 (thorough: 1..4) option declarations with name lists of 1..2 names over {a, b, ab, ba} (8420 / 168420) and every sequence of 1..3 (1..4) argument "
-                       "declarations over {X, Y, X1_, x, 1X, OPTIONS, X-Y, Xy, _X, X_Y} (1110 / 11110): Decl.tla keeps the name table and says which declarations must panic; "
+                       "declarations over {X, Y, X1_, x, 1X, OPTIONS, X-Y, Xy, _X, X_Y, X\u0142, \u0142} (1884 / 22620): Decl.tla keeps the name table and says which declarations must panic; "
                        "each declaration is made on the library under recover, then every name of every accepted option is used on a command line and must set "
                        "exactly its own variable; non-trivial = the sequence contains a declaration that must panic")
     rep.assumptions += ["a name listed only by a rejected declaration is unclaimed when reused (the property does not say; the code leaves it half-registered)",
@@ -72,7 +76,8 @@ def replay(path, wd):
     with open(path) as f:
         c = json.load(f)["replay"]["case"]
     binpath = core.build_harness()
-    r = core.run_harness(binpath, "decl", [{"kind": c["kind"], "decls": c["decls"]}], wd, shards=1)[0]
+    decls = [n.replace("~", "\u0142") for n in c["decls"]] if c["kind"] == "args" else c["decls"]
+    r = core.run_harness(binpath, "decl", [{"kind": c["kind"], "decls": decls}], wd, shards=1)[0]
     why = judge(c, r)
     print("replay: %s %s -> %s ; %s" % (c["kind"], c["decls"], json.dumps(r), why or "agrees with the specification"))
     return 1 if why else 0
